@@ -221,13 +221,19 @@ def cost_differs(ca, cb):
 
 
 def exclusions(X: GP, xa, blocked):
-    """blocked: list of sets of symbol strings (out-of-scope cores); assert not all of a core are true"""
+    """blocked: list of out-of-scope cubes (core, repair): the instances that contain all atoms of `core` and none of
+    `repair` are excluded (a plain set is read as a cube without repair atoms)"""
     out = []
-    for core in blocked:
+    for cube in blocked:
+        core, repair = cube if isinstance(cube, tuple) else (cube, ())
         lits_ = []
         for s in core:
             a = X.vis.get(s)
             lits_.append(xa[a] if a is not None else "false")
+        for s in repair:
+            a = X.vis.get(s)
+            if a is not None:
+                lits_.append(NOT(xa[a]))
         out.append(NOT(AND(lits_)))
     return out
 
